@@ -350,6 +350,10 @@ func main() {
 			fmt.Fprintln(os.Stderr, err)
 			os.Exit(2)
 		}
+		if strings.HasPrefix(v.Scenario, "restart") {
+			restartPart(r)
+			r.Finish()
+		}
 		for _, sc := range scs {
 			if sc.name == v.Scenario {
 				if err := seqx.Replay(mk(sc), v.Trace); err != nil {
@@ -372,7 +376,8 @@ func main() {
 		cfg.Deadline = time.Now().Add(r.Left() / time.Duration(len(scs)-i))
 		seqx.Merge(r, seqx.Explore(r, cfg))
 	}
-	r.Set("rule", "BFS over tick(i) / exchange(i->j, only towards members i knows) / host state change / restart(i) (bounded ticks per generation, one restart and one state change per node) on real store.Store + gossip.Gossip per node over the in-memory network; dedup on all views; after every event: no record regresses, every (member, heartbeat) record equals what its host wrote; in every new state the closing round (all tick once, then all pairs exchange once) is run in every pair order x initiator choice (3 nodes: 6 x 8) and must end with identical complete views")
+	restartPart(r)
+	r.Set("rule", "BFS over tick(i) / exchange(i->j, only towards members i knows) / host state change / restart(i) (bounded ticks per generation, one restart and one state change per node) on real store.Store + gossip.Gossip per node over the in-memory network; dedup on all views; after every event: no record regresses, every (member, heartbeat) record equals what its host wrote; in every new state the closing round (all tick once, then all pairs exchange once) is run in every pair order x initiator choice (3 nodes: 6 x 8) and must end with identical complete views; restart part: real cluster.Open over a recording store, run 1 (clean), run 2 (restart), then a crash at every point of run 2's write log from the moment Open returned and a run 3 on what was on disk: run 3's generation must exceed run 2's and the node keeps its key")
 	r.Assume("synchronous in-memory transport (freighter mock); a restart is modelled as Heartbeat.Restart() of the host record (what cluster.Open does); pairs that cannot exchange in the closing round because neither side knows the other make no convergence claim; for 4 nodes the pair orders are the 12 rotations/reversals of the canonical order")
 	r.Finish()
 }
